@@ -81,3 +81,27 @@ def size_bucket(k):
 def strip(case):
     """The case without bookkeeping keys (what is hashed and stored)."""
     return {k: case[k] for k in ('o', 'p', 'r')}
+
+
+def reference_dict(case, with_lattice=True):
+    """The documented index-based encoding computed from the reference model (nested lists)."""
+    from .oracle import shortlex_key, longlex_key
+    m = len(case['p'])
+    d = {'objects': list(case['o']), 'properties': list(case['p']),
+         'context': [[j for j in range(m) if r >> j & 1] for r in case['r']]}
+    if with_lattice:
+        ref = Ref.of(case)
+        upper, lower = ref.covers()
+        cs = ref.concepts
+        d['lattice'] = [[list(positions(e)), list(positions(i)),
+                         sorted(upper[k], key=lambda t: shortlex_key(cs[t][0])),
+                         sorted(lower[k], key=lambda t: longlex_key(cs[t][0]))] for k, (e, i) in enumerate(cs)]
+    return d
+
+
+def listify(x):
+    if isinstance(x, (list, tuple)):
+        return [listify(v) for v in x]
+    if isinstance(x, dict):
+        return {k: listify(v) for k, v in x.items()}
+    return x
